@@ -207,10 +207,20 @@ func (io IO) Write(h *keyset.Handle) (*Blob, error) {
 			_ = insecurecleartextkeyset.Write(h, w)
 		}
 		arm()
-		// ... and then a LARGER keyset (a cleartext decoy with a recognisable 16 KiB secret, DecoySecret) was written
-		// through it successfully. The judged write follows in the same stream; its output is what comes after.
-		if err := w.Write(bigDecoy()); err == nil {
-			skip = buf.Len()
+		// ... and then, for every second handle (chosen by its content, so that a replay sees the same history), a
+		// LARGER keyset (a cleartext decoy with a recognisable 16 KiB secret, DecoySecret) was written through it
+		// successfully: the judged write follows in the same stream and its output is what comes after. For the
+		// other handles the judged write comes straight after the FAILED one.
+		variant := 0
+		if h != nil {
+			for _, c := range []byte(h.String()) {
+				variant += int(c)
+			}
+		}
+		if variant%2 == 1 {
+			if err := w.Write(bigDecoy()); err == nil {
+				skip = buf.Len()
+			}
 		}
 	}
 	var err error
